@@ -121,6 +121,13 @@ def run(ctx):
             else:
                 n_idx += 1
             ctx.oblige("C03|definite|%s" % short, tab["header"]["definite"], "%s opens a map of indefinite length" % path, cfg=cfg, where=fn["sp"], nontrivial=False)
+            # .. and the announced length is the number of members emitted (else the item is malformed: a member beyond the
+            # announced count is trailing bytes, a missing one swallows what follows)
+            from . import c02
+            et = W.encode_table(F, path)
+            if et is not None:
+                okc, msgc = c02.header_count_ok(et, W.is_none_aliases(F))
+                ctx.oblige("C03|map-count|%s" % short, okc, "%s: %s -- the map header would not match the members that follow" % (path, msgc), cfg=cfg, where=fn["sp"])
             ents = tab["entries"]
             keys = [e["key"] for e in ents]
             for e in ents:
